@@ -35,6 +35,13 @@ class Budget(BaseException):
     pass
 
 
+class KnownFindingPath(BaseException):
+    """a value tainted by a recorded known finding reached a structural decision: path closed and attributed (never a pass)"""
+
+    def __init__(self, tag=""):
+        self.tag = tag
+
+
 @dataclass
 class PathResult:
     status: str  # discharged | cex | unknown | outside | error
@@ -54,6 +61,7 @@ class Stats:
     cex: int = 0
     unknown: int = 0
     outside: int = 0
+    known: int = 0
     errors: int = 0
     aborted: int = 0
     truncated: bool = False
@@ -61,7 +69,7 @@ class Stats:
 
     def add(self, o: "Stats"):
         for k in (
-            "paths branch_queries assert_queries solver_s discharged cex unknown outside errors aborted wall_s".split()
+            "paths branch_queries assert_queries solver_s discharged cex unknown outside known errors aborted wall_s".split()
         ):
             setattr(self, k, getattr(self, k) + getattr(o, k))
         self.truncated = self.truncated or o.truncated
@@ -100,6 +108,7 @@ class Engine:
         self.notes: dict = {}
         self.decided: dict = {}
         self.assumptions: list = []
+        self.nice_model = None  # optional hook(solver, info) -> model preferred for counterexamples
 
     # ------------------------------------------------------------------ solver plumbing
     def _check(self, *extra, kind="branch"):
@@ -215,6 +224,10 @@ class Engine:
             self.stats.paths += 1
             self.stats.outside += 1
             return PathResult("outside", list(self.decisions), why=oc.why)
+        except KnownFindingPath as kp:
+            self.stats.paths += 1
+            self.stats.known += 1
+            return PathResult("known", list(self.decisions), why=kp.tag)
         except Budget:
             raise
         except Exception:
@@ -243,6 +256,13 @@ class Engine:
         r = self._check(kind="assert")
         if r == z3.sat:
             m = self.solver.model()
+            if self.nice_model is not None:
+                try:
+                    m2 = self.nice_model(self.solver, info)
+                    if m2 is not None:
+                        m = m2
+                except Exception:
+                    pass
             self.solver.pop()
             self.stats.cex += 1
             return PathResult("cex", list(self.decisions), info, m)
